@@ -214,9 +214,15 @@ def check_case(ltext, klass, segs, rspec, pol, res):
     if pol.rules:
         # per-path rules are written against the LEFT document: the merge
         # point itself, or a path beneath it
-        kw["rules"] = {ptext + "".join("/" + k for k in rel): v
-                       for rel, v in pol.rules.items()}
+        # ("~sib",) stands for a rule on a SIBLING of the merge point whose
+        # key merely starts with the merge point's key (/a -> /aa): it names
+        # nothing at or beneath the merge point, so the model never sees it
+        kw["rules"] = {(ptext + "a" if rel == ("~sib",) else
+                        ptext + "".join("/" + k for k in rel)): v
+                       for rel, v in pol.rules.items()
+                       if rel != ("~sib",) or ptext[-1:].isalnum()}
         res.label("rules:" + ",".join(sorted(
+            "sibling-prefix" if rel == ("~sib",) else
             "target" if not rel else "beneath" for rel in pol.rules)))
     try:
         merger = Merger(gdocs.logger(), ldoc,
@@ -375,11 +381,12 @@ def run_shard(shard):
                 if klass == "existing" and (n + shard["offset"]) % 3 == 0:
                     # the same merge with a per-path rule naming the merge
                     # point (or its child a) that overrides the option
-                    k = (n // 3) % 4
+                    k = (n // 3) % 5
                     rpol = c05.policy_for(n * 13 + ri, with_rules=False)
                     rpol.rules = [{(): "left"}, {(): "right"},
                                   {("a",): "left"},
-                                  {(): "right", ("a",): "left"}][k]
+                                  {(): "right", ("a",): "left"},
+                                  {("~sib",): "left"}][k]
                     check_case(ltext, klass, [tuple(s) for s in segs], rspec,
                                rpol, res)
     return res
